@@ -114,10 +114,13 @@ def contentPolicies (origin : Option String) : List (String × List Src) :=
   | none => [("", selfSources), ("*:*", pathSources)]
   | some o => [(o, pathSources)]
 
-/-- header values; `none` = `HeaderValue::from_str` fails (500) -/
-def contentCsp (origin : Option String) : Option (List String) :=
-  let vs := (contentPolicies origin).map (fun p => renderPolicy p.1 p.2)
-  if vs.all validHeaderString then some vs else none
+/-- header values.  Without `--csp-origin` they are `HeaderValue::from_static` constants; with it the value is
+built by `format!` and `HeaderValue::from_str` may fail: `none` (500) -/
+def contentCsp : Option String → Option (List String)
+  | none => some [renderPolicy "" selfSources, renderPolicy "*:*" pathSources]
+  | some o =>
+    let v := renderPolicy o pathSources
+    if validHeaderString v then some [v] else none
 
 /-! ## router structure (Server::run) -/
 
@@ -205,5 +208,16 @@ def cspPreserved (ls : List LayerKind) : Bool := !(ls.contains .cspOverriding)
 /-- the layers that act on the modelled response fields, outermost last -/
 def cspRelevant (ls : List LayerKind) : List LayerKind :=
   ls.filter (fun l => l == .cspIfNotPresent || l == .cspOverriding)
+
+/-- every route and the fallback of the served router sit inside the `if_not_present` CSP layer, no layer
+overrides a policy set by a handler, and all of them see the same CSP-relevant layers as the fallback -/
+def allRoutesWrapped (defs : List RouterDef) (v : Nat) : Bool :=
+  match servedEntries defs v with
+  | none => false
+  | some es =>
+    match es.find? (fun e => e.path.isNone) with
+    | none => false
+    | some fb =>
+      es.all (fun e => cspGuaranteed e.layers && cspPreserved e.layers && cspRelevant e.layers == cspRelevant fb.layers)
 
 end Ord.Server.Csp
